@@ -191,7 +191,7 @@ TRICKY_CHARS = ['"', "\\", "\n", ",", "\t", "'", "é", "ß", "Ж", "😀", "𝔘
 LONG_STRS = ["x" * n for n in (18, 19, 20, 21, 22)] + ["lorem ipsum dolor sit amet consectetur", "a,b" * 7]
 
 INT_STRS = ["0", "1", "-1", "+7", "42", "007", "1_000", " 12 ", "12\n", "٣", "１２", "-0", "1__0", "_1", "1_",
-            "9" * 25, "+ 1", "0x10", "1e3", "١٢٣", " -5"]
+            "9" * 25, "+ 1", "0x10", "1e3", "١٢٣", " -5", "²", "¹²", "①", "⒈", "٣²", "1²", "½", "Ⅷ", "9" * 4400]
 FLOAT_STRS = ["1.5", "-0.25", "1e5", "1E-3", ".5", "5.", "1_0.5", "nan", "NaN", "inf", "-inf", "Infinity",
               "-Infinity", " 2.5 ", "1.5e+10", "1e400", "0.1", "3.14159", "１.５", "1.2.3", "1,5", "--1.5", "1e", "e5",
               "+.5e-2", "infinit", "nano"]
@@ -438,6 +438,9 @@ def literal_boundary_samples(draw, universe, strs=None):
     pool = draw(st.permutations(LITERAL_17))[:n]
     if draw(st.integers(0, 3)) == 0:
         pool = pool[:3] + [draw(st.sampled_from(LONG_STRS))]
+    if draw(st.integers(0, 2)) == 0:
+        # a pseudo-typed string at the same position, seen first
+        pool = [draw(st.sampled_from(["1", "2.5", "true"]))] + list(pool)
     mode = draw(st.sampled_from(["scalar", "list", "list2", "overlap"]))
     if mode == "overlap":
         # overlapping literal sets whose sizes add up to more than 15 although at most 15 distinct strings occur
